@@ -932,6 +932,22 @@ def gen_tree(rng: random.Random, profile: str) -> Dict[str, Any]:
     for d in dirs:
         if d:
             files.setdefault(f"{d}/__init__.py", rng.choice(["", "", "VERSION = 1\n"]))
+    # script folders: two plain folders that each bring their own regular package of one name with other
+    # contents, and a script next to it importing through the dotted name (what `python folder/script.py`
+    # would resolve to the folder's own package); whatever the tool resolves it to must not depend on which
+    # worker formatted which script before
+    if profile in ("base", "edges") and rng.random() < 0.2:
+        hp = "vshelpers"
+        variants = [("square", "x * x"), ("cube", "x * x * x"), ("double", "x + x")]
+        rng.shuffle(variants)
+        for folder, (fn, expr) in zip(rng.sample(["vss_reports", "vss_tools", "vsa_jobs"], 2), variants):
+            files[f"{folder}/{hp}/__init__.py"] = ""
+            files[f"{folder}/{hp}/shapes.py"] = f"def {fn}(x):\n    return {expr}\n"
+            files[f"{folder}/run_{fn}.py"] = f"from {hp}.shapes import *\n\nprint({fn}(3))\n"
+        if rng.random() < 0.4:
+            fn, expr = variants[2]
+            files[f"{hp}/__init__.py"] = ""
+            files[f"{hp}/shapes.py"] = f"def {fn}(x):\n    return {expr}\n\n\ndef {variants[0][0]}(x):\n    return -x\n"
     # near twins: a shared function text with a pure helper in one file and an impure one in the other
     if profile in ("base", "edges", "converge") and rng.random() < 0.25:
         a, b = gen.near_twins(rng)
